@@ -781,14 +781,30 @@ pub fn vec_requirements(node: &Node) -> VecSignedHeaderRequirements {
             v.add_always_present(s);
         }
         for s in &c {
-            v.add_if_in_request(s);
+            if h & 4 != 0 && !a.iter().any(|x| x.eq_ignore_ascii_case(s)) {
+                // declared always-required first, then conditionally, then the stronger
+                // requirement is withdrawn: the conditional one must remain
+                v.add_always_present(s);
+                v.add_if_in_request(s);
+                v.remove_always_present(&s.to_uppercase());
+            } else {
+                v.add_if_in_request(s);
+            }
         }
         for s in &p {
             v.add_prefix(s);
         }
         if h & 2 != 0 {
+            // a name added twice in two spellings and withdrawn once is gone
             v.add_always_present("X-Decoy-Always");
+            v.add_always_present("x-decoy-always");
+            v.add_if_in_request("X-Decoy-Cond");
+            v.add_if_in_request("x-decoy-COND");
+            v.add_prefix("X-Decoy-");
+            v.add_prefix("x-decoy-");
             v.remove_always_present("x-decoy-always");
+            v.remove_if_in_request("X-DECOY-COND");
+            v.remove_prefix("x-Decoy-");
         }
         v
     }
